@@ -66,11 +66,11 @@ theorem octets_prim_total (fuel : Nat) (m : Mode) (c rest : Bytes) :
 
 /-- OCTET STRING, constructed form: DER rejects, BER and CER end in a value, a content error or out of budget -/
 theorem octets_cons_der_total (fuel : Nat) (st : CState) (g : G0) :
-    Total (runG0 (OS.fromContent fuel (.cons ⟨st, .der⟩)) g) := .inr (C16.cons_der_reject fuel st g)
+    Total (runG0 (OS.fromContent fuel (.cons ⟨st, .der, 0⟩)) g) := .inr (C16.cons_der_reject fuel st g)
 
 theorem octets_cons_ber_total (fuel : Nat) (st : CState) (d : Bytes) (lo : Option Nat) (hc : st = .definite → lo ≠ none) :
-    TotalF (runG0 (OS.fromContent fuel (.cons ⟨st, .ber⟩)) (St d lo)) := by
-  cases h : runG0 (OS.fromContent fuel (.cons ⟨st, .ber⟩)) (St d lo) with
+    TotalF (runG0 (OS.fromContent fuel (.cons ⟨st, .ber, 0⟩)) (St d lo)) := by
+  cases h : runG0 (OS.fromContent fuel (.cons ⟨st, .ber, 0⟩)) (St d lo) with
   | ok a => exact .inl ⟨a, rfl⟩
   | error e =>
     rcases C16b.fromContent_nopanic fuel st d lo hc e h with h1 | h1
